@@ -18,11 +18,13 @@ LEVEL_TEXT = ("Bounded relational contracts, one per rewrite R in {copy, pickle 
               "objects (copy constructors, weak sets, cached-property invalidation, pickling): no contract within the "
               "proof rung can carry them ('exploration'). Proved part (pyvc): only the leaf _axes_from_dims of "
               "add_mapspec_axis (one ':' per existing dimension of the parameter but one, then the new axis).")
+LEVEL_TEXT += (" Also proved: _NestedFuncWrapper.__call__ (nest_funcs / NestedPipeFunc: the wrapper hands out the inner pipeline's values by name - for several output names the tuple of their values in the order of the names, which is what the positional output picker of the nest relies on; the inner pipeline's function is an assumed contract).")
 LEVEL_NOTE = ("Bounds: DAGs of 1..4 functions (tuple outputs, defaults, bound values, renames); compositions of <=2 "
               "rewrites; mutations update_defaults / update_bound. Trusted: reference evaluator rtc/dag.py.")
 LEVEL_NOTE += (' Rewritten pipelines are compared under pipeline(...) and under map (every function called once on whole values); in-place renamings that permute root-argument names are applied to cached pipelines after every output was computed once.')
 TECHNIQUE = ("bounded relational contract checking of each rewrite against the reference evaluator; leaf "
              "_axes_from_dims discharged by z3")
+TECHNIQUE += ('; _NestedFuncWrapper.__call__ discharged by z3')
 EXPLANATION = LEVEL_TEXT
 RULE = ("random DAG x rewrite (x second rewrite) x every retained output; distinct = distinct (DAG, rewrites); "
         "non-trivial = >=2 functions")
@@ -43,13 +45,17 @@ def proof_items():
     from vf.driver import ProofItem
     # add_mapspec_axis: a parameter without a MapSpec gets ':' for each of its existing dimensions, then the new axis
     from contracts import mapspec as cm
+    from contracts import nested
     ms_reg = lambda: {**{c.short: c for c in cm.ALL}, **{c.name: c for c in cm.ALL}}  # noqa: E731
     return [ProofItem(misc.axes_from_dims, gen=misc.afd_gen),
             # ... and every array of a function that already has a MapSpec gets the new axis appended (duplicates refused)
             ProofItem(cm.arrayspec_add_axes, gen=cm.add_axes_gen, call=cm.add_axes_call, registry=ms_reg),
             ProofItem(cm.mapspec_add_axes, gen=cm.ms_add_axes_gen, call=cm.add_axes_call, registry=ms_reg),
             # update_renames on a function with a MapSpec: a simultaneous renaming of its arrays
-            ProofItem(cm.mapspec_rename, gen=cm.rename_gen, registry=ms_reg)]
+            ProofItem(cm.mapspec_rename, gen=cm.rename_gen, registry=ms_reg),
+            # nest_funcs: the wrapper hands out the inner pipeline's values by name, in the order of the output names
+            ProofItem(nested.wrapper_call, gen=nested.gen, call=nested.call,
+                      registry=lambda: {**{c.short: c for c in nested.ALL}, **{c.name: c for c in nested.ALL}})]
 
 
 def _cases(tier, rng):
